@@ -287,8 +287,22 @@ func New(timeoutMs int, order []string) *Solver {
 func (s *Solver) argv(name string) []string {
 	switch name {
 	case "z3":
+		// incremental (push/pop) instance: (reset) costs z3 4.8.12 10-150 ms per query, push/pop < 1 ms;
+		// it gets a quarter of the time limit, hard queries fall through to cvc5 and one-shot z3 ("z3r")
+		t := s.TimeoutMs / 4
+		if t < 1000 {
+			t = s.TimeoutMs
+		}
+		return []string{"/usr/bin/z3", "-in", fmt.Sprintf("-t:%d", t)}
+	case "z3r":
 		return []string{"/usr/bin/z3", "-in", fmt.Sprintf("-t:%d", s.TimeoutMs)}
 	case "z3-new":
+		t := s.TimeoutMs / 4
+		if t < 1000 {
+			t = s.TimeoutMs
+		}
+		return []string{"z3-new", "-in", fmt.Sprintf("-t:%d", t)}
+	case "z3-newr":
 		return []string{"z3-new", "-in", fmt.Sprintf("-t:%d", s.TimeoutMs)}
 	case "cvc5":
 		return []string{"/usr/bin/cvc5", "--incremental", "--lang=smt2", "--produce-models", fmt.Sprintf("--tlimit-per=%d", s.TimeoutMs)}
@@ -326,8 +340,16 @@ func (s *Solver) run(name, script string, vars []*term.Term, wantModel bool) (Re
 		return Unknown, nil, "spawn: " + err.Error()
 	}
 	var sb strings.Builder
+	incr := name == "z3" || name == "z3-new"
 	if name == "cvc5" {
 		sb.WriteString("(reset)\n(set-logic ALL)\n")
+	} else if incr {
+		sb.WriteString("(push 1)\n")
+		defer func() {
+			if !p.dead {
+				io.WriteString(p.in, "(pop 1)\n")
+			}
+		}()
 	} else {
 		sb.WriteString("(reset)\n")
 	}
